@@ -152,10 +152,25 @@ def extra_cases(tier, seed, shard, nshards):
                                "cfg": cfg, "proxy": 0, "cut": 0, "consume": n % 2, "cut_mode": "one"}
 
 
+    # a PROXY protocol line is only ever the first line of a connection: in front of a later request it is a malformed request line
+    first = ["GET /one HTTP/1.1\r\nHost: a\r\n\r\n", "POST /one HTTP/1.1\r\nHost: a\r\nContent-Length: 3\r\n\r\nabc",
+             "POST /one HTTP/1.1\r\nHost: a\r\nTransfer-Encoding: chunked\r\n\r\n3\r\nabc\r\n0\r\n\r\n"]
+    second = "GET /two HTTP/1.1\r\nHost: a\r\n\r\n"
+    for f in first:
+        for line in ("PROXY TCP4 198.51.100.7 192.0.2.2 4444 80\r\n", "PROXY TCP6 2001:db8::7 2001:db8::2 4444 80\r\n", "PROXY UNKNOWN\r\n"):
+            for where in (1, 2):
+                stream = f + (line if where == 1 else second + line) + second
+                for cfg, proxy in ((5, 0), (5, 2), (6, 0), (0, 0)):
+                    for cut, mode in ((0, "one"), (len(f), "one"), (3, "after-every-crlf")):
+                        n += 1
+                        if n % nshards == shard:
+                            yield {"stream": stream, "cfg": cfg, "proxy": proxy, "cut": cut, "consume": n % 2, "cut_mode": mode}
+
+
 EXHAUSTIVE_NOTE = ("chunked-with-trailers pipelines: %d conforming streams (body 11 B / 8150 B x 0-2 trailer fields x last-chunk extension x "
                    "2 followers) x every single read boundary from the last-chunk line to 12 bytes into the follower x 2 consumption modes, "
                    "plus the multi-cut modes; and every HTTP-version 0.0-2.9 x 5 framings (chunked, chunked+CL, gzip+chunked, CL, none) x 2 configs "
-                   "with a request-shaped body" % len(_pipelines()))
+                   "with a request-shaped body; and PROXY lines in front of the 2nd / 3rd request of a connection x 4 configs x 3 feeds" % len(_pipelines()))
 
 
 def _head(r):
